@@ -35,9 +35,9 @@ def main():
         try:
             for d in ("pynenc", "pynmon"):
                 shutil.copytree(os.path.join("/repo", d), os.path.join(tmp, d), ignore=shutil.ignore_patterns("__pycache__"))
-            r = subprocess.run(["patch", "-p1", "-d", tmp, "-i", os.path.join(sd, "patch.diff")], capture_output=True, text=True)
+            r = subprocess.run(["git", "apply", "--include=pynenc/*", "--include=pynmon/*", os.path.join(sd, "patch.diff")], cwd=tmp, capture_output=True, text=True)
             if r.returncode != 0:
-                print(f"{name}: patch does not apply to the current tree: {r.stdout[-200:]}")
+                print(f"{name}: patch does not apply to the current tree: {(r.stdout + r.stderr)[-200:]}")
                 det = {"patch_applies_to_current_tree": False}
             else:
                 det = {"patch_applies_to_current_tree": True, "checks": {}}
